@@ -77,7 +77,7 @@ OutsideOK == ~inside => bytes = prev
 PropOK == ObsFails(fb, m, prev, inside,
                    [data |-> bytes,
                     probes |-> SetToSeq({ <<p[1], p[2], FbPixelT(fb, bytes, p)>> : p \in PointsOf(Grow(FbBox(fb), 1)) }),
-                    isize |-> <<fb.w, fb.h>>,
+                    isize |-> <<fb.w, fb.h>>, iclip |-> <<0, 0, 0, 0>>, iccalls |-> <<>>,
                     icalls |-> << [m |-> "fc", area |-> FbBox(fb), n |-> fb.w * fb.h, c |-> 0, px |-> <<>>,
                                    cs |-> [i \in 1..(fb.w * fb.h) |-> Pixel(AsImage(fb, bytes), <<(i - 1) % fb.w, (i - 1) \div fb.w>>)]] >>]) = {}
 =============================================================================
